@@ -454,7 +454,7 @@ func c14For(c *Ctx, pp string) {
 					}
 					for _, in := range b.Instrs {
 						body, ok := in.(*ssa.Call)
-						if !ok || body.Call.StaticCallee() != runStmts {
+						if !ok || !runsBodyOnce(body.Call.StaticCallee(), runStmts, 0) {
 							continue
 						}
 						nb++
@@ -476,6 +476,9 @@ func c14For(c *Ctx, pp string) {
 						r.Ob("POLL-IN-CYCLE", fmt.Sprintf("%s body #%d is followed by a latch test before anything else is evaluated", key, nb), t.Pos(body.Pos()), late == "",
 							"after the body returned (possibly because a poll inside it observed the signal) nothing may be evaluated before StmtRetrun()/ProcExit() is consulted: "+late)
 					}
+				}
+				if nb == 0 {
+					r.Undecided("POLL-IN-CYCLE", key+" body execution", pos, "no execution of the loop body (RunStmts, or a helper that runs it once) was found in this loop: the rule that nothing is evaluated between the body and the latch test cannot be applied")
 				}
 			}
 			// (4) from the exit edge: no evaluation before a success return
